@@ -83,8 +83,12 @@ func (osf *OSTypeFn) SetOSType(osType OSType) error {
 		osType = CurrentOSType()
 	}
 
-	if BuildFeatures()&FeatSetOSType != 0 && osType != CurrentOSType() {
-		return ErrSetOSType
+	var err error
+
+	if BuildFeatures()&FeatSetOSType == 0 && osType != CurrentOSType() {
+		// Without the build tag 'avfs_setostype' only the OS type of the host is available.
+		osType = CurrentOSType()
+		err = ErrSetOSType
 	}
 
 	osf.osType = osType
@@ -96,5 +100,5 @@ func (osf *OSTypeFn) SetOSType(osType OSType) error {
 
 	osf.pathSeparator = sep
 
-	return nil
+	return err
 }
